@@ -72,6 +72,39 @@ func pickGood(rng *simrt.Rng) *TypeInfo {
 	return goodTypes[rng.Intn(len(goodTypes))]
 }
 
+// staticallyUnreflectable: the message (transitively) has a field kind J5 has no representation for.
+func staticallyUnreflectable(md protoreflect.MessageDescriptor, seen map[protoreflect.FullName]bool) bool {
+	if seen[md.FullName()] {
+		return false
+	}
+	seen[md.FullName()] = true
+	if md.FullName() == "j5.source.v1.SourceImage" {
+		return true // carries raw FileDescriptorProtos
+	}
+	fields := md.Fields()
+	for i := 0; i < fields.Len(); i++ {
+		fd := fields.Get(i)
+		switch fd.Kind() {
+		case protoreflect.Fixed32Kind, protoreflect.Fixed64Kind, protoreflect.Sfixed32Kind, protoreflect.Sfixed64Kind, protoreflect.GroupKind:
+			return true
+		case protoreflect.MessageKind:
+			if fd.IsMap() {
+				if mv := fd.MapValue(); mv.Kind() == protoreflect.MessageKind && staticallyUnreflectable(mv.Message(), seen) {
+					return true
+				}
+				continue
+			}
+			if strings.HasPrefix(string(fd.Message().FullName()), "google.protobuf.") {
+				continue
+			}
+			if staticallyUnreflectable(fd.Message(), seen) {
+				return true
+			}
+		}
+	}
+	return false
+}
+
 // catalogueHang: the very first use of this type on a fresh codec never returned (native mode only)
 var catalogueHang string
 
@@ -115,17 +148,10 @@ func buildCatalogue() {
 			continue
 		}
 		ti := &TypeInfo{Name: n, Desc: mt.Descriptor(), Type: mt, Pkg: string(mt.Descriptor().ParentFile().Package())}
-		probe := func() {
-			defer func() { _ = recover() }()
-			c := codec.NewCodec()
-			_, err := c.ProtoToJSON(mt.New())
-			ti.Reflectable = err == nil
-		}
-		if catalogueHang != "" {
-			// a first use already blocked forever: do not start more
-		} else if !callWithTimeout(probe) {
-			catalogueHang = n
-		}
+		// No type is touched here: a first use must be free to happen inside a simulated run.
+		// Which types J5 cannot reflect is only needed for workload weighting and fault counts,
+		// so a static estimate is enough.
+		ti.Reflectable = !staticallyUnreflectable(mt.Descriptor(), map[protoreflect.FullName]bool{})
 		catalogue = append(catalogue, ti)
 		catByName[n] = ti
 		if ti.Reflectable {
